@@ -15,13 +15,16 @@ def spec(tier):
     obs.append(twin("protocol_same_tick", "c14.trace_protocol", dict(a0=I(0, 7), a1=I(0, 7), R=I(0, 8)), dict(tps=2, n=2, a2=0, a3=0), "same_tick"))
     obs.append(twin("protocol_after_end", "c14.trace_protocol", dict(a0=I(0, 7), a1=I(0, 7), R=I(0, 8)), dict(tps=2, n=2, a2=0, a3=0), "after_end"))
     # gentrace round trip at exact tick rates (the generator's own numpy stream, several seeds)
-    for tps in (1, 2, 4):
+    for tps in (1, 2, 4, 128, 1024):
         for seed in ((1, 2, 3, 42) if th else (1, 42)):
-            obs.append(CH(name=f"gentrace_tps{tps}_seed{seed}", harness="c14.gentrace_roundtrip", sym={}, fixed=dict(tps=tps, seed=seed, wmean=1.5),
+            obs.append(CH(name=f"gentrace_tps{tps}_seed{seed}", harness="c14.gentrace_roundtrip", sym={}, fixed=dict(tps=tps, seed=seed, wmean=1.5 if tps <= 4 else 24.0 / tps, K=24 if tps <= 4 else 400),
                           timeout=120, group=f"gentrace{tps}"))
     obs.append(KN(name="mapping_bounds", func="vf.kernels.c13:bounds", args=dict(tier=tier), timeout=600))
-    obs.append(KN(name="on_grid_decimal", func="vf.kernels.c13:on_grid", args=dict(kind="decimal", tier=tier), timeout=2400 if th else 900))
-    obs.append(KN(name="on_grid_gentrace", func="vf.kernels.c13:on_grid", args=dict(kind="gentrace", tier=tier), timeout=2400 if th else 900))
+    obs.append(KN(name="grouping", func="vf.kernels.c13:grouping", args=dict(tier=tier), timeout=600))
+    for kind in ("decimal", "gentrace"):
+        for rk in ("dyadic", "nondyadic"):
+            obs.append(KN(name=f"on_grid_{kind}_{rk}", func="vf.kernels.c13:on_grid", args=dict(kind=kind, tier=tier, rates_kind=rk),
+                          timeout=3600 if th else 1200))
     return PropSpec(
         property_id="C13", obligations=obs,
         functions=["WorkloadTrace.__init__", "WorkloadTrace.get_next_batch_tick", "WorkloadTrace.run_one_tick", "WorkloadTrace.advance_to_next_batch",
